@@ -50,7 +50,9 @@ func c17Gen(rng *verifsim.RNG, idx int, tier string) *Plan {
 	p.Horizon = int64(horizon)
 	req := func(at int64) {
 		path := []string{"/metrics", "/metrics", "/_/api/interfaces", "/_/api/interfaces", "/", "/debug/pprof/", "/nope", "/metrics/x", "/_/api"}[rng.Intn(9)]
-		p.Actions = append(p.Actions, Action{At: at, Kind: "http", Path: path})
+		// (four in ten travel over a connection through the debug task's real
+		// http.Server; the others are handed to the handler)
+		p.Actions = append(p.Actions, Action{At: at, Kind: "http", Path: path, Conn: rng.Bool(0.4)})
 	}
 	// Lifecycle: an interface that is not there yet at start-up.
 	if rng.Bool(0.4) {
@@ -127,6 +129,18 @@ func c17Gen(rng *verifsim.RNG, idx int, tier string) *Plan {
 			p.Actions = keep
 			if p.Horizon < t0+d+nsSec {
 				p.Horizon = t0 + d + nsSec
+			}
+			if rng.Bool(0.4) {
+				// ... and the daemon is told to stop while that scrape, which came
+				// in over a connection, is still stuck: it stops all the same
+				p.Class = "held-scrape+stop"
+				for i := range p.Actions {
+					if p.Actions[i].Kind == "http" && p.Actions[i].At == t0+1000 {
+						p.Actions[i].Conn = true
+					}
+				}
+				st := t0 + 1000 + int64(rng.Dur(time.Millisecond, time.Duration(d-2000)))
+				p.Actions = append(p.Actions, Action{At: st, Kind: "signal", Sig: []string{"SIGTERM", "SIGINT", "SIGHUP"}[rng.Intn(3)]})
 			}
 		}
 	case 2:
@@ -259,6 +273,51 @@ type apiRA struct {
 	} `json:"options"`
 }
 
+// apiOptionDiffs compares the prefix and route options of an API rendering
+// with the model of the RA of that moment: the same set, each with its
+// lifetimes. Returns (signature, text) pairs.
+func apiOptionDiffs(m *modelOut, ra *apiRA) [][2]string {
+	var out [][2]string
+	want := map[string]eopt{}
+	for _, o := range m.opts {
+		if o.kind == "prefix" || o.kind == "route" {
+			k := o.kind + " " + o.pfx.String()
+			if _, ok := want[k]; ok {
+				return nil // two options with one key: don't-care
+			}
+			want[k] = o
+		}
+	}
+	type jl struct {
+		key string
+		lt  []int64
+	}
+	var got []jl
+	for _, x := range ra.Options.Prefixes {
+		got = append(got, jl{"prefix " + x.Prefix, []int64{x.Valid, x.Preferred}})
+	}
+	for _, x := range ra.Options.Routes {
+		got = append(got, jl{"route " + x.Prefix, []int64{x.Lifetime}})
+	}
+	if len(got) != len(want) {
+		out = append(out, [2]string{"json-option-count", fmt.Sprintf("renders %d prefix/route options, the RA of that moment has %d", len(got), len(want))})
+	}
+	for _, g := range got {
+		o, ok := want[g.key]
+		if !ok {
+			out = append(out, [2]string{"json-option-extra", fmt.Sprintf("renders %s, which the RA of that moment does not carry", g.key)})
+			continue
+		}
+		for i := range g.lt {
+			if g.lt[i] < o.lo[i] || g.lt[i] > o.hi[i] {
+				out = append(out, [2]string{"json-lifetime:" + o.kind, fmt.Sprintf("renders %s with lifetimes %v, want %v..%v", g.key, g.lt, o.lo, o.hi)})
+				break
+			}
+		}
+	}
+	return out
+}
+
 func c17Oracle(info *runInfo, res *verifsim.Result) {
 	if info.rejected[0] != "" {
 		res.Skipped = "config_rejected"
@@ -283,8 +342,16 @@ func c17Oracle(info *runInfo, res *verifsim.Result) {
 		e := &info.ev[i]
 		switch e.K {
 		case "act.http":
+			if e.Err != "" {
+				// nobody listens on the debug address (yet, or any more)
+				res.Probe("connection_refused")
+				continue
+			}
 			reqs[e.Seq] = &reqT{act: e}
 			order = append(order, e.Seq)
+			if e.V == 1 {
+				res.Probe("request_over_a_connection")
+			}
 		case "http.enter":
 			if r := reqs[e.Ref]; r != nil {
 				r.enter = e
@@ -612,48 +679,8 @@ func c17Oracle(info *runInfo, res *verifsim.Result) {
 			if hdr != m.hdr || ra.Lifetime != m.lifetime {
 				res.Violate("C17.mirror", "json-header", "API at %s: %s header %q lifetime %d, want %q lifetime %d", ms(r.act.T), bi.Interface, hdr, ra.Lifetime, m.hdr, m.lifetime)
 			}
-			// prefix and route options: the same set, each with its lifetimes
-			{
-				want := map[string]eopt{}
-				dup := false
-				for _, o := range m.opts {
-					if o.kind == "prefix" || o.kind == "route" {
-						k := o.kind + " " + o.pfx.String()
-						if _, ok := want[k]; ok {
-							dup = true
-						}
-						want[k] = o
-					}
-				}
-				type jl struct {
-					key string
-					lt  []int64
-				}
-				var got []jl
-				for _, x := range ra.Options.Prefixes {
-					got = append(got, jl{"prefix " + x.Prefix, []int64{x.Valid, x.Preferred}})
-				}
-				for _, x := range ra.Options.Routes {
-					got = append(got, jl{"route " + x.Prefix, []int64{x.Lifetime}})
-				}
-				if !dup {
-					if len(got) != len(want) {
-						res.Violate("C17.mirror", "json-option-count", "API at %s: %s renders %d prefix/route options, the RA of that moment has %d", ms(r.act.T), bi.Interface, len(got), len(want))
-					}
-					for _, g := range got {
-						o, ok := want[g.key]
-						if !ok {
-							res.Violate("C17.mirror", "json-option-extra", "API at %s: %s renders %s, which the RA of that moment does not carry", ms(r.act.T), bi.Interface, g.key)
-							continue
-						}
-						for i := range g.lt {
-							if g.lt[i] < o.lo[i] || g.lt[i] > o.hi[i] {
-								res.Violate("C17.mirror", "json-lifetime:"+o.kind, "API at %s: %s renders %s with lifetimes %v, want %v..%v", ms(r.act.T), bi.Interface, g.key, g.lt, o.lo, o.hi)
-								break
-							}
-						}
-					}
-				}
+			for _, d := range apiOptionDiffs(m, &ra) {
+				res.Violate("C17.mirror", d[0], "API at %s: %s %s", ms(r.act.T), bi.Interface, d[1])
 			}
 			txt := string(bi.Advertisement)
 			for _, o := range m.opts {
@@ -686,8 +713,34 @@ func c17Oracle(info *runInfo, res *verifsim.Result) {
 			}
 		}
 	}
+	// a request that is stuck does not keep the daemon from stopping
+	if info.plan.Class == "held-scrape+stop" {
+		stopT, stopSeq, _ := stopInstant(h, 0)
+		inflight := false
+		for _, k := range order {
+			r := reqs[k]
+			if r.enter != nil && r.enter.Seq < stopSeq && (r.exit == nil || r.exit.Seq > stopSeq) {
+				inflight = true
+			}
+		}
+		if stopSeq != 0 && inflight {
+			res.Probe("stopped_with_a_request_in_flight")
+			var se *verifsim.Event
+			for i := range info.ev {
+				if info.ev[i].K == "serve.exit" {
+					se = &info.ev[i]
+				}
+			}
+			switch {
+			case se == nil:
+				res.Violate("C17.block", "stop-held", "stop at %s with a request stuck in a system call: the daemon never stopped", ms(stopT))
+			case se.T > stopT+nsSec:
+				res.Violate("C17.block", "stop-held", "stop at %s with a request stuck in a system call: the daemon only stopped at %s", ms(stopT), ms(se.T))
+			}
+		}
+	}
 	// while a request is parked the advertiser keeps answering solicitations
-	if info.plan.Class == "held-scrape" {
+	if strings.HasPrefix(info.plan.Class, "held-scrape") {
 		for _, is := range cfg.Interfaces {
 			if is.Advertise && !is.UnicastOnly {
 				for _, ifn := range is.names() {
